@@ -388,11 +388,26 @@ async def run_history(loop, script, dev_inst_map, tail):
     await sim.settle(6)
 
     def locals_of():
-        fr = d._bus_watch_task.get_coro().cr_frame
-        if fr is None:
+        """the watch task's memory (pending command, remembered device type) - an INTERNAL of the driver, compared
+        with the model's state when it can be found: as locals of the task's coroutine (the historical shape), as
+        attributes of an object held in a local of that coroutine or of a coroutine it awaits; otherwise 'unknown'
+        and only the reports (what subscribers see) are compared"""
+        co = d._bus_watch_task.get_coro()
+        if co.cr_frame is None:
             return ("dead", "dead")
-        cur = fr.f_locals.get("current_command")
-        return ((len(cur.frame), cur.frame.as_integer) if cur is not None else None, fr.f_locals.get("devicetype"))
+        seen = 0
+        while co is not None and seen < 6 and getattr(co, "cr_frame", None) is not None:
+            loc = co.cr_frame.f_locals
+            holders = [loc] + [vars(v) for v in loc.values()
+                               if hasattr(v, "__dict__") and not isinstance(v, type) and v is not d
+                               and "current_command" in vars(v) and "devicetype" in vars(v)]
+            for h in holders:
+                if "current_command" in h and "devicetype" in h:
+                    cur = h["current_command"]
+                    return ((len(cur.frame), cur.frame.as_integer) if cur is not None else None, h["devicetype"])
+            co = getattr(co, "cr_await", None)
+            seen += 1
+        return ("unknown", "unknown")
     snap = (list(reports), locals_of(), loop.time())
     if tail:
         await asyncio.sleep(1.0)
@@ -480,9 +495,13 @@ def check_history(ctx, corr, ids, script, dev_inst_map, timeout_s, label):
         want_s = [canon_model_report(t, dec) for t in srep]
         # model vs code: reports and the two local variables of the watch task
         cur, dt = state
-        real_state = "cur=%s dt=%s" % ("-" if cur is None else "%d.%d" % cur, dt)
         mcur = mstate.split()[0]
         mstate_cmp = "cur=%s %s" % ("-" if mcur == "cur=-" else ".".join(mcur[4:].split(".")[:2]), mstate.split()[1])
+        if cur == "unknown":
+            real_state = mstate_cmp          # the task keeps its memory somewhere this harness cannot see
+            corr.bump("watch-state-not-visible")
+        else:
+            real_state = "cur=%s dt=%s" % ("-" if cur is None else "%d.%d" % cur, dt)
         if want_m != reports or mstate_cmp != real_state:
             corr.disagree("watch_trace", {"history": pretty, "at": name, "line": mline},
                           {"reports": want_m, "state": mstate_cmp}, {"reports": reports, "state": real_state})
